@@ -10,12 +10,12 @@ T_HAND = "Coq theorems over a hand-written executable model; model/implementatio
 C = {
  "C01": ("Each of the 12 Numba/CUDA kernels, regenerated from source, is proved equal to a reference for any carrier, and the reference at R equals the windowed-DFT definition (Goertzel = e^{iw(L-1)} X); NumPy fallbacks via a hand model tied by correspondence.", "7/C01",
          "float rounding of the recurrence budgeted not proved; cos/sin, LAPACK QR are oracles; CUDA run in the simulator only; T1 front end trusted to refuse what it does not understand", T_GEN_K),
- "C02": ("Theorems at R for the lpsd/ltf/vectorized scheduler models: every bin of every admissible plan is safely and completely segmented, for every fuel and oracle value; model tied to speckit/schedulers.py by bit-exact binary64 correspondence; direct oracle on all four schedulers and on SpectrumAnalyzer.plan().", "7/C02",
-         "binary64 vs real arithmetic in integer decisions measured not proved; new_ltf_plan covered by the direct oracle only; libm pow / np.logspace are oracles", T_SCHED),
+ "C02": ("Theorems at R for the lpsd/ltf/vectorized/new_ltf scheduler models: every bin of every admissible plan is safely and completely segmented, for every fuel and oracle value; model tied to speckit/schedulers.py by bit-exact binary64 correspondence; direct oracle on all four schedulers and on SpectrumAnalyzer.plan().", "7/C02",
+         "binary64 vs real arithmetic in integer decisions measured not proved; libm pow/exp/log and np.logspace are oracle tables recorded from the implementation's own run", T_SCHED),
  "C03": ("Structural theorems for an arbitrary carrier (bit-exact at binary64): f[j+1]=f[j]+r[j], r=fs/L, b=f/r; real-number theorems for r*L=fs, start, monotonicity, Nyquist and the bmin rounding slack.", "7/C03",
-         "vectorised bmin slack and new_ltf_plan by direct oracle only; b and f0 compared within 4 ulp", T_SCHED),
+         "vectorised and new_ltf bmin slack by direct oracle only; b and f0 compared within 4 ulp", T_SCHED),
  "C04": ("Theorems: K nearest integer (capped), starts within half a sample, reported overlap = realised overlap, log spacing where unclamped, Jdes search sound and terminating for any scheduler behaviour, forced plans exact.", "7/C04",
-         "monotonicity of L/K, K>=Kdes and the 10% vectorised/iterative agreement are decided by the oracle sweep (empirical statements), not by a theorem", T_SCHED),
+         "monotonicity of L/K is proved for ltf/lpsd (SchedMono.v) and swept for vectorised/new_ltf; K>=Kdes and the 10% vectorised/iterative agreement are decided by the oracle sweep", T_SCHED),
  "C06": ("ENBW, power-spectrum and density normalisation, channel-scaling and fs-relabelling laws proved on the regenerated attribute table; window sums, scaling laws and sinusoid calibration checked on real analyses.", "7/C06",
          "PARTIAL: kernel homogeneity and the Kaiser leakage bound behind 'A^2/2' are swept, not proved", T_GEN_A),
  "C09": ("coherence in [0,1] from Cauchy-Schwarz, coherence 1 when |XY|^2=XX*YY, swap symmetry, GyyCx+GyyRx=Gyy, GyySx=Gyy(1-coh), auto-in-pair — proved on the regenerated table.", "7/C09",
